@@ -3,7 +3,7 @@ from __future__ import annotations
 
 import random
 
-from pbv import core, loopsuite, scen, shots
+from pbv import core, lattice, loopsuite, scen, shots
 
 
 def scenarios(rng: random.Random, n: int, thorough: bool):
@@ -86,6 +86,7 @@ def run(chk: core.Check, replay=None) -> None:
     core.use_repo()
     thorough = chk.tier == "thorough"
     loopsuite.design(chk, "C03")
+    lattice.replay(chk, "C03", thorough)          # exact spec -> code replay of whole fire() results
     behs = loopsuite.gen_behaviours(chk, 3000 if thorough else 400, chk.seed + 3)
     loopsuite.object_replay(chk, "C03", behs)
     rng = random.Random(chk.seed * 7 + 3)
